@@ -125,9 +125,6 @@ pub fn run_c11(out: &mut Out) {
                     out.fail(&cid, "C11:below-lower-bound", "split R-hat below sqrt((n-1)/n)", (m * n) as u64,
                         format!("rhat={} bound={bound} kind={:?} m={m} n={n}", rhat[d], cols[d].0));
                 }
-                if cols[d].0 == Kind::Apart && m >= 2 && rhat[d].is_finite() && rhat[d] < 1.0 {
-                    out.fail(&cid, "C11:apart-below-one", "chains moved apart give R-hat < 1", (m * n) as u64, format!("rhat={}", rhat[d]));
-                }
             }
             // exact metamorphic checks: scaling by a power of two and changing *other* parameters must not change a bit
             let scaled = a.mapv(|x| x * pow2);
